@@ -281,10 +281,22 @@ func encCounterPack1(r *vlib.Rand) *W {
 	if r.Chance(1, 4) {
 		altForm = true
 		n := r.Range(1, 3)
+		many := r.Chance(1, 4)
+		if many {
+			n = r.Range(800, 1600) // many callers, small numbers
+		}
 		o.Mark(1, kVer, "counter-txcaller-poid-form")
 		o.U8(9)
 		decCount(o, n, "counter-txcaller-poid-count")
 		for i := 0; i < n; i++ {
+			if many {
+				for j := 0; j < 5; j++ {
+					o.Decimal(int64(r.Intn(100)))
+				}
+				byteCount(o, 0, "counter-txcaller-poid-acts-count")
+				o.Decimal(int64(r.Intn(100)))
+				continue
+			}
 			d(5)
 			m := r.Intn(n + 1)
 			byteCount(o, m, "counter-txcaller-poid-acts-count")
@@ -680,6 +692,25 @@ func encCompositePack(r *vlib.Rand, depth int) *W {
 	shortCount(w, n, "composite-count")
 	for i := 0; i < n; i++ {
 		appendW(w, smallPack(r, depth))
+	}
+	return w
+}
+
+// encCompositeChain: composite packs nested depth levels deep; every level holds the nested
+// composite first and then zero to two small packs.
+func encCompositeChain(r *vlib.Rand, depth int) *W {
+	w := refcodec.NewW()
+	packType(w, 0x1700)
+	packHeader(w, r)
+	if depth <= 0 {
+		shortCount(w, 0, "composite-count")
+		return w
+	}
+	n := r.Intn(3)
+	shortCount(w, 1+n, "composite-count")
+	appendW(w, encCompositeChain(r, depth-1))
+	for i := 0; i < n; i++ {
+		appendW(w, smallPack(r, 0))
 	}
 	return w
 }
